@@ -104,6 +104,8 @@ fn check_name(role: &str, asn: &str, f: &Found, discs: &mut Vec<Disc>, ctx: &str
     }
     // strip the keyword escape
     let body = rust.strip_prefix("r_").or_else(|| rust.strip_prefix("R_")).filter(|b| is_keyword(b) || is_keyword(&b.to_lowercase()) || WEAK.contains(b) || WEAK.contains(&b.to_lowercase().as_str())).unwrap_or(rust);
+    // (an ASN.1 name may itself begin with `r-` + keyword: then nothing was escaped)
+    let body = if alnum_seq(rust) == alnum_seq(asn) { rust.as_str() } else { body };
     if alnum_seq(body) != alnum_seq(asn) {
         discs.push(Disc::new(key("letters"), format!("{ctx}: `{rust}` does not keep the letters/digits of `{asn}`")));
     }
@@ -140,7 +142,7 @@ impl Prop for C16 {
         "C16"
     }
     fn rule(&self) -> String {
-        "(a) every legal ASN.1 name of length <= L (quick 4, thorough 6) over the class alphabet {a,z,A,Z,0,9,-} in each role {module, type (+ use as component/element type), component, alternative, component / alternative with an anonymous constructed type (the name becomes part of a type name), enumeral, value (+ use in another value), named number}; (b) every Rust strict/reserved/weak keyword in its ASN.1-legal spelling per role (capitalised for types/modules) plus hyphenated near-keywords; (c) type/identifier pairs differing only by case or hyphen used in different roles of one module; TypeScript backend for (a) at L<=3. Oracle: output parses (syn); identifier legal and not a Rust 2021 keyword; letter/digit sequence (minus r_/R_ escape) equals the ASN.1 name's; case class per role; Rust spelling != ASN.1 spelling ⇒ identifier annotation equal to the ASN.1 name; references use the same Rust spelling as the definition. Non-trivial: compiled cleanly and the identifier was located.".into()
+        "(a) every legal ASN.1 name of length <= L (quick 4, thorough 6) over the class alphabet {a,z,A,Z,0,9,-} in each role {module, type (+ use as component/element type), component, alternative, component / alternative with an anonymous constructed type (the name becomes part of a type name), enumeral, value (+ use in another value), named number}; (b) every Rust strict/reserved/weak keyword in its ASN.1-legal spelling per role (capitalised for types/modules) plus hyphenated near-keywords; (b') names that look like the compiler's internal names after conversion (ext-group-x, extGroupX, Anonymous-A, Inner-A, r-type, R-Type); (c) type/identifier pairs differing only by case or hyphen used in different roles of one module; TypeScript backend for (a) at L<=3. Oracle: output parses (syn); identifier legal and not a Rust 2021 keyword; letter/digit sequence (minus r_/R_ escape) equals the ASN.1 name's; case class per role; Rust spelling != ASN.1 spelling ⇒ identifier annotation equal to the ASN.1 name; references use the same Rust spelling as the definition. Non-trivial: compiled cleanly and the identifier was located.".into()
     }
     fn enumerate(&self, tier: Tier, _seed: u64) -> Vec<Case> {
         let alpha = ['a', 'z', 'A', 'Z', '0', '9', '-'];
@@ -213,6 +215,18 @@ impl Prop for C16 {
                         out.push(Case { role: r.into(), name: n.clone(), other: None, ts: false });
                     }
                 }
+            }
+        }
+        // names that, once converted, look like the compiler's own internal names (extension groups `ext_group_..`, hoisted
+        // `Anonymous..` / `Inner..` types, the keyword escape `r_..` / `R_..`): they are ordinary names and keep their annotation
+        for n in ["ext-group-id", "extGroupName", "ext-group", "extGroup", "anonymous-a", "anonymousItem", "inner-a", "r-type", "r-a", "rType"] {
+            for r in lower_roles {
+                out.push(Case { role: r.into(), name: n.to_string(), other: None, ts: false });
+            }
+        }
+        for n in ["Anonymous-A", "AnonymousA", "Inner-A", "InnerA", "Ext-Group-A", "R-Type", "RType", "R-A"] {
+            for r in upper_roles {
+                out.push(Case { role: r.into(), name: n.to_string(), other: None, ts: false });
             }
         }
         // pairs differing only by case or hyphen in different roles
